@@ -1212,9 +1212,37 @@ OtherSituations(pre, e, post) ==
     Sit("twohop.leg_crosses_a_tick", e.name \in {"two_hop_swap", "two_hop_swap_v2"} /\ \E k \in DOMAIN e.swaps : \E i \in DOMAIN e.swaps[k].steps : "crossed" \in DOMAIN e.swaps[k].steps[i]),
     Sit("probe.succeeded", e.probe) }
 
+(* instruction x feature: which instructions succeeded on which kind of pool / position (transfer-fee mints, adaptive
+   fee, Token-2022, active rewards, bundled / locked / Token-2022 position tokens, a delegate signing ...).  An empty cell
+   that is feasible is a region no predicate has been evaluated in.                                       *)
+PoolsOfEvent(pre, e) ==
+  (IF Has(e.args, "pool") /\ APool(e) \in DOMAIN pre.pool THEN {APool(e)} ELSE {})
+  \cup (IF Has(e.args, "pos") /\ APos(e) \in DOMAIN pre.pos /\ pre.pos[APos(e)].pool \in DOMAIN pre.pool THEN {pre.pos[APos(e)].pool} ELSE {})
+  \cup (IF HasSlot(e, "whirlpool_one") /\ Id(e, "whirlpool_one") \in DOMAIN pre.pool THEN {Id(e, "whirlpool_one")} ELSE {})
+  \cup (IF HasSlot(e, "whirlpool_two") /\ Id(e, "whirlpool_two") \in DOMAIN pre.pool THEN {Id(e, "whirlpool_two")} ELSE {})
+MintHasFee(pre, m, epoch) == m \in DOMAIN pre.mint /\ TfCfg(pre, m, epoch).bps > 0
+PoolFeatures(pre, e, q) ==
+  LET pl == pre.pool[q] IN
+  UNION { Sit("fee_on_a", MintHasFee(pre, pl.mintA, e.epoch)), Sit("fee_on_b", MintHasFee(pre, pl.mintB, e.epoch)),
+          Sit("token2022", pl.mintA \in DOMAIN pre.mint /\ pre.mint[pl.mintA].prog # "spl"),
+          Sit("adaptive", q \in DOMAIN pre.oracle),
+          Sit("rewards_emitting", \E i \in 1..3 : pl.rewards[i].init /\ ~(pl.rewards[i].emissions \doteq 0)),
+          Sit("no_liquidity", pl.liq \doteq 0) }
+PosFeatures(pre, e) ==
+  IF ~(Has(e.args, "pos") /\ APos(e) \in DOMAIN pre.pos) THEN {}
+  ELSE LET x == pre.pos[APos(e)] IN
+       UNION { Sit("position_token2022", x.mint \in DOMAIN pre.mint /\ pre.mint[x.mint].prog # "spl"),
+               Sit("bundled_position", \E b \in DOMAIN pre.bundle : pre.bundle[b].mint = x.mint),
+               Sit("locked_position", APos(e) \in DOMAIN pre.lock),
+               Sit("delegate_signs", HasSlot(e, "position_token_account") /\ HasSlot(e, "position_authority") /\ IsTok(pre, Id(e, "position_token_account"))
+                                      /\ pre.tok[Id(e, "position_token_account")].owner # Id(e, "position_authority")),
+               Sit("empty_position", x.liq \doteq 0) }
+IxFeatures(pre, e) ==
+  {"x." \o e.name \o "." \o f : f \in (UNION {PoolFeatures(pre, e, q) : q \in PoolsOfEvent(pre, e)}) \cup PosFeatures(pre, e)}
+
 Situations(pre, e, post) ==
   UNION {
-    {"ix." \o e.name},
+    {"ix." \o e.name}, IxFeatures(pre, e),
     IF IsSwapName(e.name) /\ Len(e.swaps) = 1 /\ e.swaps[1].done THEN SwapSituations(pre, e, post) ELSE {},
     IF IsSwapName(e.name) /\ Len(e.swaps) = 1 /\ e.swaps[1].done /\ APool(e) \in DOMAIN pre.oracle /\ APool(e) \in DOMAIN post.oracle THEN AfSituations(pre, e, post) ELSE {},
     IF e.name \in LiqNames /\ Has(e.args, "pos") /\ APos(e) \in DOMAIN pre.pos /\ APos(e) \in DOMAIN post.pos THEN LiqSituations(pre, e, post) ELSE {},
